@@ -142,7 +142,10 @@ TXT = st.text(alphabet=st.characters(min_codepoint=32, max_codepoint=126), max_s
 
 
 def dev_string():
-    good_dev = TXT.map(lambda t: "/dev/" + t)
+    # flat and nested device nodes (bsg, by-id aliases, device-mapper)
+    good_dev = st.one_of(TXT.map(lambda t: "/dev/" + t),
+                         st.sampled_from(["/dev/sg0", "/dev/bsg/0:0:0:0", "/dev/disk/by-id/scsi-3600508b400105e21",
+                                          "/dev/mapper/mpatha", "/dev/sr0", "/dev/tape/by-path/x-nst"]))
     # libiscsi URL syntax: iscsi://[<username>[%<password>]@]<host>[:<port>]/<target-iqn>/<lun>
     good_iscsi = st.tuples(st.sampled_from(["127.0.0.1", "10.0.0.1:3260", "[::1]", "host.example", "chap%secret@10.0.0.1",
                                             "user@host.example:3260", "u%p@w@[::1]"]),
